@@ -32,6 +32,7 @@ sys.path.insert(0, os.path.dirname(os.path.dirname(os.path.abspath(__file__))))
 from gramsym.harness import Harness, run_main
 from gramsym.parallel import parallel_explore
 import parse_common as PC
+import tc_common as TC
 import c03
 import c09
 
@@ -127,7 +128,7 @@ def main():
     F = static_call_sites(H)
     if nfun < 10 or F < nfun:
         H.inconclusive.append("only %d parse_* functions / %d call sites found in parser.rs" % (nfun, F))
-    nmax = int(os.environ.get("C17_N", "0")) or (3 if quick else 5)
+    nmax = int(os.environ.get("C17_N", "0")) or (3 if quick else 4)
     growth = []
     for n in range(0, nmax + 1):
         name = "parse on every sequence of %d tokens: calls of parse_* functions" % n
@@ -143,6 +144,15 @@ def main():
         H.log("%s: %d paths, max %s calls (bound %d), %d obligations, %d discharged, %d workers, %.1fs" % (
             name, m.stats.get("paths", 0), m.counters.get("max_calls"), SLACK * F * (n + 1), m.stats.get("obligations", 0), m.stats.get("discharged", 0), m.workers, time.time() - t0))
         c03.handle(H, m.violations, confirm_fn=confirm, classify_fn=lambda l, c: None, cap=2)
+    # D: the definition-order pass
+    t0 = time.time()
+    m = parallel_explore(order_factory(H, 3), min(H.jobs, 4))
+    H.absorb_merged("definition-order pass on a group of one non-value definition and 3 functions with shared helpers", m)
+    hist = sorted((int(k.split(":")[1]), v) for k, v in m.counters.items() if k.startswith("calls:"))
+    H.log("definition-order pass: %d paths, calls of check_definition per path %s, %d obligations, %d discharged, %.1fs" % (
+        m.stats.get("paths", 0), hist, m.stats.get("obligations", 0), m.stats.get("discharged", 0), time.time() - t0))
+    c03.handle(H, m.violations, confirm_fn=confirm_order, classify_fn=lambda l, c: None, cap=1)
+    H.bounds["definition-order pass"] = "a group of 4 definitions: one non-value start and 3 functions each mentioning two later members or its parameter (which ones: symbolic); check_definition entered at most 4 times"
     H.samples.append({"max calls of parse_* functions per number of tokens": growth, "parse functions": nfun, "static call sites": F, "bound": "%d * %d * (n + 1)" % (SLACK, F)})
     H.bounds.update({"parser": "every token sequence of 0..%d tokens over all 29 token kinds (well-formed and malformed alike)" % nmax,
                      "work measure": "calls of parse_* functions during parser::parse, cache hits included",
@@ -151,6 +161,99 @@ def main():
     H.assumptions += ["token sequences are those the tokenizer can produce (line-break terminators only where it emits them)",
                       "time is proportional to the number of parse_* calls (each call does a bounded amount of work besides the calls it makes)"]
     return H.finish()
+
+
+# ---------------------------------------------------------------------------------------------
+# D: the definition-order pass (parser::check_definitions), the "long definition sequences" family
+def order_factory(H, n=3):
+    """A group of one non-value definition and n functions whose bodies mention two later members
+    each (which ones is symbolic, layered so that the dependency graph is a DAG with shared helpers).
+    With the `visited` set every definition is entered at most once per starting definition; without
+    it the walk enumerates every path through the graph, which is exponential in n."""
+    from gramsym.values import VecV, Str, none
+    from gramsym.inputs import CODE
+    N = n + 1
+
+    def alpha(node):
+        d, sl = node.depth, node.slot
+        if d == 1:
+            return ["Let%d" % N]
+        if d == 2:
+            if sl == 2 * N:
+                return ["Variable"]
+            if sl % 2 == 0:
+                return ["Unifier"]
+            return ["Sum"] if sl == 1 else ["Lambda"]
+        if d == 3:
+            if node.parent.slot == 1:
+                return ["Variable"]
+            return ["Integer"] if sl == 0 else ["Sum"]
+        return ["Variable"]
+
+    def make():
+        ex, it = H.engine(solver_timeout_ms=60000)
+        ex.fuel = 20000
+        sp = TC.ProgramSpace("p", 4, alpha, scope=0)
+        root = sp.root()
+
+        def body(ex):
+            it.call_depth = 0
+            it.call_counts = {}
+            # layering: the start mentions functions; function i mentions its parameter or functions j > i
+            start = root.kid(1)
+            for k in (0, 1):
+                v = start.kid(k)
+                ex.touch(v)
+                ex.add(z3.Or(*[v.idx == N - 1 - j for j in range(1, N)]))
+            for i in range(1, N):
+                b = root.kid(2 * i + 1).kid(1)
+                for k in (0, 1):
+                    v = b.kid(k)
+                    ex.touch(v)
+                    ex.add(z3.Or(v.idx == 0, *[v.idx == 1 + (N - 1 - j) for j in range(i + 1, N)]))
+            errs = VecV()
+            it.call("parser", "check_definitions", [none(), Str(""), root, 0, errs])
+            calls = (it.call_counts or {}).get("check_definition", 0)
+            ex.count("calls:%d" % calls)
+            ex.check(calls <= N, "D1.each-definition-entered-at-most-once-per-start (%d calls of check_definition for one non-value definition in a group of %d)" % (calls, N),
+                     info=lambda m: {"n": n, "case": TC.input_case(ex, m, root)})
+        return ex, body, None
+    return make
+
+
+def layered_group(n):
+    """Term JSON of: z = f1 + f2; f_i = (x : int) => f_{i+1} + f_{i+2} (the last ones use x); z"""
+    N = n + 1
+    var = lambda name, idx: {"v": "Variable", "sr": None, "name": name, "index": idx}
+    defs = []
+    cells = {}
+    for i in range(N):
+        cells[str(i)] = None
+        ann = {"v": "Unifier", "cell": i, "shift": N - i, "sr": None}
+        if i == 0:
+            d = {"v": "Sum", "sr": None, "kids": [var("f1", N - 1 - 1), var("f2", N - 1 - min(2, N - 1))]}
+        else:
+            ref = lambda j: var("f%d" % j, 1 + (N - 1 - j)) if j < N else var("x", 0)
+            d = {"v": "Lambda", "sr": None, "name": "x", "implicit": False,
+                 "kids": [{"v": "Integer", "sr": None}, {"v": "Sum", "sr": None, "kids": [ref(i + 1), ref(i + 2)]}]}
+        defs.append({"name": "z" if i == 0 else "f%d" % i, "ann": ann, "def": d})
+    return {"v": "Let", "sr": None, "defs": defs, "body": var("z", N - 1)}, cells
+
+
+def confirm_order(H, label, case):
+    """Native: the compiled check_definitions on the layered family at 20, 26, 32 functions."""
+    replay = H.get_replay()
+    ts = []
+    for n in (20, 26, 32):
+        tj, cells = layered_group(n)
+        t0 = time.time()
+        r = replay.call({"op": "check_definitions", "term": tj, "cells": cells, "depth": 0, "source": ""}, timeout=90)
+        ts.append(time.time() - t0)
+        if "timeout" in r or "crash" in r:
+            ts[-1] = 90.0
+            break
+    grows = len(ts) >= 2 and ts[-1] > 8 * max(ts[-2], 0.002) and ts[-1] > 0.2
+    return grows, "compiled check_definitions on the layered family with 20, 26, 32 functions: %s s" % ["%.3f" % t for t in ts]
 
 
 def counting(base):
